@@ -1,4 +1,699 @@
-import SqlLineage.Model.AStmt
+/-
+C03 — script summary roles follow from per‑statement reads and writes.
+
+Theorems about `AStmt.build` = `Assemble.build` (model of `SQLLineageHolder._build_digraph` + role predicates,
+core/holders.py:297‑458) on the statement holders the public holder API builds for abstract statements.
+The model is tied to the code by the exhaustive correspondence of `harness/c03.py`.
+-/
+import SqlLineage.Proofs.AStmtLemmas
+
 namespace SqlLineage.Props.C03
-theorem placeholder : True := trivial
+open SqlLineage Graph Assemble AStmt
+
+/-! ### history predicates (the property's vocabulary) -/
+
+/-- some statement reads `r` and writes `w` -/
+def feeds (ss : List AStmt) (r w : String) : Prop := ∃ R, AStmt.rw R (some w) ∈ ss ∧ r ∈ R
+/-- `t` is read by a statement that writes nothing -/
+def srcOnly (ss : List AStmt) (t : String) : Prop := ∃ R, AStmt.rw R none ∈ ss ∧ t ∈ R
+/-- `t` is written by a statement that reads nothing -/
+def tgtOnly (ss : List AStmt) (t : String) : Prop := AStmt.rw [] (some t) ∈ ss
+/-- one statement both reads and writes `t` -/
+def self (ss : List AStmt) (t : String) : Prop := feeds ss t t
+def readSomewhere (ss : List AStmt) (t : String) : Prop := ∃ R w, AStmt.rw R w ∈ ss ∧ t ∈ R
+def writtenSomewhere (ss : List AStmt) (t : String) : Prop := ∃ R, AStmt.rw R (some t) ∈ ss
+/-- the history contains no DROP / RENAME -/
+def RWOnly (ss : List AStmt) : Prop := ∀ s ∈ ss, ∃ R w, s = AStmt.rw R w
+
+/-! ### invariant of the fold -/
+
+structure Inv (ss : List AStmt) (g : LGraph) : Prop where
+  nodes : ∀ n, n ∈ g.nodes ↔ (∃ t, n = tn t ∧ (readSomewhere ss t ∨ writtenSomewhere ss t)) ∨
+                              (∃ t, n = Node.str t ∧ readSomewhere ss t)
+  edges : ∀ e, e ∈ g.edges ↔ (∃ r w, e = (tn r, tn w) ∧ feeds ss r w) ∨
+                              (∃ r, e = (tn r, Node.str r) ∧ readSomewhere ss r)
+  src : ∀ n, g.tag n .sourceOnly = some true ↔ ∃ t, n = tn t ∧ srcOnly ss t
+  tgt : ∀ n, g.tag n .targetOnly = some true ↔ ∃ t, n = tn t ∧ tgtOnly ss t
+  loop : ∀ n, g.tag n .selfloop = none
+
+private theorem inv_empty : Inv [] (Graph.empty : LGraph) := by
+  constructor <;> intro x <;>
+    simp [readSomewhere, writtenSomewhere, feeds, srcOnly, tgtOnly]
+
+private theorem mem_snoc {α : Type} (l : List α) (a x : α) : x ∈ l ++ [a] ↔ x ∈ l ∨ x = a := by simp
+
+private theorem inv_step (ss : List AStmt) (g : LGraph) (R : List String) (w : Option String) (hI : Inv ss g) :
+    Inv (ss ++ [AStmt.rw R w])
+      (rwStep (g.compose (holderOf (.rw R w))) (stmtRead (holderOf (.rw R w))) (stmtWrite (holderOf (.rw R w)))) := by
+  have hrdN : ∀ n ∈ stmtRead (holderOf (.rw R w)), n ∈ (g.compose (holderOf (.rw R w))).nodes := by
+    intro n hn
+    obtain ⟨r, hr, rfl⟩ := (mem_stmtRead_rw R w n).mp hn
+    exact (mem_nodes_compose _ _ _).mpr (Or.inr ((rw_nodes R w _).mpr (Or.inl ⟨r, hr, Or.inl rfl⟩)))
+  have hwrN : ∀ n ∈ stmtWrite (holderOf (.rw R w)), n ∈ (g.compose (holderOf (.rw R w))).nodes := by
+    intro n hn
+    obtain ⟨x, hx, rfl⟩ := (mem_stmtWrite_rw R w n).mp hn
+    exact (mem_nodes_compose _ _ _).mpr (Or.inr ((rw_nodes R w _).mpr (Or.inr ⟨x, hx, rfl⟩)))
+  have hrd_nil : stmtRead (holderOf (.rw R w)) = [] ↔ R = [] := by
+    constructor
+    · intro h
+      cases R with
+      | nil => rfl
+      | cons r rs =>
+        have : tn r ∈ stmtRead (holderOf (.rw (r :: rs) w)) := (mem_stmtRead_rw _ _ _).mpr ⟨r, by simp, rfl⟩
+        rw [h] at this; simp at this
+    · rintro rfl
+      apply List.eq_nil_iff_forall_not_mem.mpr
+      intro n hn
+      obtain ⟨r, hr, _⟩ := (mem_stmtRead_rw [] w n).mp hn
+      simp at hr
+  have hwr_nil : stmtWrite (holderOf (.rw R w)) = [] ↔ w = none := by
+    constructor
+    · intro h
+      cases w with
+      | none => rfl
+      | some x =>
+        have : tn x ∈ stmtWrite (holderOf (.rw R (some x))) := (mem_stmtWrite_rw _ _ _).mpr ⟨x, rfl, rfl⟩
+        rw [h] at this; simp at this
+    · rintro rfl
+      apply List.eq_nil_iff_forall_not_mem.mpr
+      intro n hn
+      obtain ⟨x, hx, _⟩ := (mem_stmtWrite_rw R none n).mp hn
+      simp at hx
+  constructor
+  · -- nodes
+    intro n
+    rw [rwStep_nodes _ _ _ hrdN hwrN, mem_nodes_compose, hI.nodes, rw_nodes]
+    simp only [readSomewhere, writtenSomewhere, mem_snoc]
+    constructor
+    · rintro ((⟨t, rfl, (⟨R', w', hm, ht⟩ | ⟨R', hm⟩)⟩ | ⟨t, rfl, R', w', hm, ht⟩) |
+              (⟨r, hr, (rfl | rfl)⟩ | ⟨x, rfl, rfl⟩))
+      · exact Or.inl ⟨t, rfl, Or.inl ⟨R', w', Or.inl hm, ht⟩⟩
+      · exact Or.inl ⟨t, rfl, Or.inr ⟨R', Or.inl hm⟩⟩
+      · exact Or.inr ⟨t, rfl, R', w', Or.inl hm, ht⟩
+      · exact Or.inl ⟨r, rfl, Or.inl ⟨R, w, Or.inr rfl, hr⟩⟩
+      · exact Or.inr ⟨r, rfl, R, w, Or.inr rfl, hr⟩
+      · exact Or.inl ⟨x, rfl, Or.inr ⟨R, Or.inr rfl⟩⟩
+    · rintro (⟨t, rfl, (⟨R', w', (hm | hm), ht⟩ | ⟨R', (hm | hm)⟩)⟩ | ⟨t, rfl, R', w', (hm | hm), ht⟩)
+      · exact Or.inl (Or.inl ⟨t, rfl, Or.inl ⟨R', w', hm, ht⟩⟩)
+      · cases hm; exact Or.inr (Or.inl ⟨t, ht, Or.inl rfl⟩)
+      · exact Or.inl (Or.inl ⟨t, rfl, Or.inr ⟨R', hm⟩⟩)
+      · cases hm; exact Or.inr (Or.inr ⟨t, rfl, rfl⟩)
+      · exact Or.inl (Or.inr ⟨t, rfl, R', w', hm, ht⟩)
+      · cases hm; exact Or.inr (Or.inl ⟨t, ht, Or.inr rfl⟩)
+  · -- edges
+    intro e
+    rw [rwStep_edges, mem_edges_compose, hI.edges, rw_edges, mem_stmtRead_rw, mem_stmtWrite_rw]
+    simp only [feeds, readSomewhere, mem_snoc]
+    constructor
+    · rintro (((⟨r, x, rfl, R', hm, hr⟩ | ⟨r, rfl, R', w', hm, hr⟩) | ⟨r, hr, rfl⟩) | ⟨⟨r, hr, h1⟩, ⟨x, rfl, h2⟩⟩)
+      · exact Or.inl ⟨r, x, rfl, R', Or.inl hm, hr⟩
+      · exact Or.inr ⟨r, rfl, R', w', Or.inl hm, hr⟩
+      · exact Or.inr ⟨r, rfl, R, w, Or.inr rfl, hr⟩
+      · refine Or.inl ⟨r, x, ?_, R, Or.inr rfl, hr⟩
+        obtain ⟨a, b⟩ := e
+        simp only at h1 h2; subst h1; subst h2; rfl
+    · rintro (⟨r, x, rfl, R', (hm | hm), hr⟩ | ⟨r, rfl, R', w', (hm | hm), hr⟩)
+      · exact Or.inl (Or.inl (Or.inl ⟨r, x, rfl, R', hm, hr⟩))
+      · cases hm; exact Or.inr ⟨⟨r, hr, rfl⟩, ⟨x, rfl, rfl⟩⟩
+      · exact Or.inl (Or.inl (Or.inr ⟨r, rfl, R', w', hm, hr⟩))
+      · cases hm; exact Or.inl (Or.inr ⟨r, hr, rfl⟩)
+  · -- source_only
+    intro n
+    rw [rwStep_tag]
+    simp only [true_and, Tag.noConfusion, false_and, if_false, reduceCtorEq]
+    rw [tag_compose, rw_tag_none R w n .sourceOnly (by decide) (by decide)]
+    simp only [srcOnly, mem_snoc]
+    by_cases hc : stmtRead (holderOf (.rw R w)) ≠ [] ∧ stmtWrite (holderOf (.rw R w)) = [] ∧
+        n ∈ stmtRead (holderOf (.rw R w)) ∧ n ∈ (g.compose (holderOf (.rw R w))).nodes
+    · rw [if_pos hc]
+      obtain ⟨_, hwn, hn, _⟩ := hc
+      obtain ⟨r, hr, rfl⟩ := (mem_stmtRead_rw R w _).mp hn
+      have hw : w = none := hwr_nil.mp hwn
+      subst hw
+      simp only [true_iff]
+      exact ⟨r, rfl, R, Or.inr rfl, hr⟩
+    · rw [if_neg hc, hI.src]
+      simp only [srcOnly]
+      constructor
+      · rintro ⟨t, rfl, R', hm, ht⟩; exact ⟨t, rfl, R', Or.inl hm, ht⟩
+      · rintro ⟨t, rfl, R', (hm | hm), ht⟩
+        · exact ⟨t, rfl, R', hm, ht⟩
+        · exfalso
+          cases hm
+          apply hc
+          have hmem : tn t ∈ stmtRead (holderOf (.rw R none)) := (mem_stmtRead_rw _ _ _).mpr ⟨t, ht, rfl⟩
+          refine ⟨?_, hwr_nil.mpr rfl, hmem, hrdN _ hmem⟩
+          intro h; rw [h] at hmem; simp at hmem
+  · -- target_only
+    intro n
+    rw [rwStep_tag]
+    simp only [true_and, Tag.noConfusion, false_and, if_false, reduceCtorEq]
+    rw [tag_compose, rw_tag_none R w n .targetOnly (by decide) (by decide)]
+    simp only [tgtOnly, mem_snoc]
+    by_cases hc : stmtRead (holderOf (.rw R w)) = [] ∧ stmtWrite (holderOf (.rw R w)) ≠ [] ∧
+        n ∈ stmtWrite (holderOf (.rw R w)) ∧ n ∈ (g.compose (holderOf (.rw R w))).nodes
+    · rw [if_pos hc]
+      obtain ⟨hrn, _, hn, _⟩ := hc
+      obtain ⟨x, hx, rfl⟩ := (mem_stmtWrite_rw R w _).mp hn
+      have hR : R = [] := hrd_nil.mp hrn
+      subst hR; subst hx
+      simp only [true_iff]
+      exact ⟨x, rfl, Or.inr rfl⟩
+    · rw [if_neg hc, hI.tgt]
+      simp only [tgtOnly]
+      constructor
+      · rintro ⟨t, rfl, hm⟩; exact ⟨t, rfl, Or.inl hm⟩
+      · rintro ⟨t, rfl, (hm | hm)⟩
+        · exact ⟨t, rfl, hm⟩
+        · exfalso
+          cases hm
+          apply hc
+          have hmem : tn t ∈ stmtWrite (holderOf (.rw [] (some t))) := (mem_stmtWrite_rw _ _ _).mpr ⟨t, rfl, rfl⟩
+          refine ⟨hrd_nil.mpr rfl, ?_, hmem, hwrN _ hmem⟩
+          intro h; rw [h] at hmem; simp at hmem
+  · -- selfloop stays unset during the fold
+    intro n
+    rw [rwStep_tag]
+    simp only [Tag.noConfusion, false_and, if_false, reduceCtorEq]
+    rw [tag_compose, rw_tag_none R w n .selfloop (by decide) (by decide), hI.loop]
+
+private theorem foldAll_inv (ord : List (Node × Node) → List (Node × Node)) (ss pre : List AStmt) (g : LGraph)
+    (hrw : RWOnly ss) (hI : Inv pre g) :
+    ∃ g', foldAll ord g (ss.map holderOf) = .ok g' ∧ Inv (pre ++ ss) g' := by
+  induction ss generalizing pre g with
+  | nil => exact ⟨g, rfl, by simpa using hI⟩
+  | cons s r ih =>
+    obtain ⟨R, w, rfl⟩ := hrw s (by simp)
+    have hr : RWOnly r := fun s hs => hrw s (by simp [hs])
+    simp only [List.map_cons, foldAll, foldStep_rw]
+    have := ih (pre ++ [AStmt.rw R w]) _ hr (inv_step pre g R w hI)
+    simpa using this
+
+/-! ### the tail of `_build_digraph` on table‑only graphs -/
+
+/-- a graph in the invariant has no column nodes, so nothing is unresolved and nothing is an orphan column -/
+private theorem no_cols (ss : List AStmt) (g : LGraph) (hI : Inv ss g) : ∀ n ∈ g.nodes, n.isCol = false := by
+  intro n hn
+  rcases (hI.nodes n).mp hn with ⟨t, rfl, _⟩ | ⟨t, rfl, _⟩
+  · simp
+  · simp [Node.isCol]
+
+private theorem tail_eq (g : LGraph) (hc : ∀ n ∈ g.nodes, n.isCol = false) :
+    (match resolveAll Prov.none (tagSelfloops g) (unresolved (tagSelfloops g)) with
+      | .error e => Except.error e
+      | .ok g => Except.ok (removeOrphans g)) = .ok (tagSelfloops g) := by
+  have hu : unresolved (tagSelfloops g) = [] := by
+    simp only [unresolved, List.filter_eq_nil_iff]
+    intro e he
+    have := (mem_edgesOrdered_iff _ _).mp he
+    have hn : e.1 ∈ g.nodes := by simpa [tagSelfloops] using this.2
+    simp [hc _ hn]
+  have ho : removeOrphans (tagSelfloops g) = tagSelfloops g := by
+    have : (tagSelfloops g).nodes.filter (fun n => (tagSelfloops g).degree n == 0 && n.isCol &&
+        decide ((cands (tagSelfloops g) n).length > 1)) = [] := by
+      simp only [List.filter_eq_nil_iff]
+      intro n hn
+      have hn' : n ∈ g.nodes := by simpa [tagSelfloops] using hn
+      simp [hc _ hn']
+    simp [removeOrphans, this]
+  rw [hu]; simp [resolveAll, ho]
+
+/-- **Totality and shape** of the assembly of a DROP/RENAME‑free history. -/
+theorem build_rw (ss : List AStmt) (hrw : RWOnly ss) :
+    ∃ g, Inv ss g ∧ AStmt.build ss = .ok (tagSelfloops g) := by
+  obtain ⟨g, hg, hI⟩ := foldAll_inv id ss [] Graph.empty hrw inv_empty
+  refine ⟨g, by simpa using hI, ?_⟩
+  simp only [AStmt.build, Assemble.build, buildWith, hg]
+  exact tail_eq g (no_cols _ g (by simpa using hI))
+
+/-! ### the table graph and the roles, characterised by the history -/
+
+private theorem tsl_nodes (g : LGraph) : (tagSelfloops g).nodes = g.nodes := rfl
+private theorem tsl_edges (g : LGraph) : (tagSelfloops g).edges = g.edges := rfl
+
+private theorem tsl_tag (g : LGraph) (n : Node) (t : Tag) :
+    (tagSelfloops g).tag n t = if n ∈ g.nodes ∧ (n, n) ∈ g.edges ∧ t = .selfloop then some true else g.tag n t := by
+  simp only [tagSelfloops, tag_setTags, mem_selfloopNodes]
+  by_cases h : n ∈ g.nodes ∧ (n, n) ∈ g.edges ∧ t = .selfloop
+  · obtain ⟨a, b, c⟩ := h; simp [a, b, c]
+  · rw [if_neg h]
+    have : ¬((n ∈ g.nodes ∧ (n, n) ∈ g.edges) ∧ n ∈ g.nodes ∧ t = .selfloop) :=
+      fun ⟨⟨a, b⟩, _, c⟩ => h ⟨a, b, c⟩
+    rw [if_neg this]
+
+/-- edges of the table‑level graph: exactly the (read, write) pairs of the statements -/
+theorem table_edges (ss : List AStmt) (g : LGraph) (hI : Inv ss g) (e : Node × Node) :
+    e ∈ (tableGraph (tagSelfloops g)).edges ↔ ∃ r w, e = (tn r, tn w) ∧ feeds ss r w := by
+  simp only [tableGraph, mem_edges_subgraph, tsl_edges, hI.edges]
+  constructor
+  · rintro ⟨(h | ⟨r, rfl, _⟩), h1, h2⟩
+    · exact h
+    · simp [Node.isDataset] at h2
+  · rintro ⟨r, w, rfl, h⟩
+    exact ⟨Or.inl ⟨r, w, rfl, h⟩, by simp, by simp⟩
+
+private theorem tg_inDeg_pos (ss : List AStmt) (g : LGraph) (hI : Inv ss g) (t : String) :
+    0 < (tableGraph (tagSelfloops g)).inDeg (tn t) ↔ ∃ r, feeds ss r t := by
+  rw [inDeg_pos_iff]
+  constructor
+  · rintro ⟨u, hu⟩
+    obtain ⟨r, w, he, hf⟩ := (table_edges ss g hI _).mp hu
+    simp only [Prod.mk.injEq] at he
+    have := tn_inj he.2; subst this; exact ⟨r, hf⟩
+  · rintro ⟨r, hf⟩; exact ⟨tn r, (table_edges ss g hI _).mpr ⟨r, t, rfl, hf⟩⟩
+
+private theorem tg_outDeg_pos (ss : List AStmt) (g : LGraph) (hI : Inv ss g) (t : String) :
+    0 < (tableGraph (tagSelfloops g)).outDeg (tn t) ↔ ∃ w, feeds ss t w := by
+  rw [outDeg_pos_iff]
+  constructor
+  · rintro ⟨u, hu⟩
+    obtain ⟨r, w, he, hf⟩ := (table_edges ss g hI _).mp hu
+    simp only [Prod.mk.injEq] at he
+    have := tn_inj he.1; subst this; exact ⟨w, hf⟩
+  · rintro ⟨w, hf⟩; exact ⟨tn w, (table_edges ss g hI _).mpr ⟨t, w, rfl, hf⟩⟩
+
+private theorem mem_union (a b : List Node) (x : Node) : x ∈ Assemble.union a b ↔ x ∈ a ∨ x ∈ b := by
+  simp only [Assemble.union, List.mem_append, List.mem_filter]
+  constructor
+  · rintro (h | ⟨h, _⟩); exact Or.inl h; exact Or.inr h
+  · rintro (h | h)
+    · exact Or.inl h
+    · by_cases hx : x ∈ a
+      · exact Or.inl hx
+      · exact Or.inr ⟨h, by simp [hx]⟩
+
+private theorem mem_tagTables (g : LGraph) (t : Tag) (n : Node) :
+    n ∈ tagTables g t ↔ n ∈ g.nodes ∧ g.tag n t = some true ∧ n.isDataset = true := by
+  simp only [tagTables, tagged, List.mem_filter, beq_iff_eq]
+  constructor
+  · rintro ⟨⟨a, b⟩, c⟩; exact ⟨a, b, c⟩
+  · rintro ⟨a, b, c⟩; exact ⟨⟨a, b⟩, c⟩
+
+private theorem feeds_node (ss : List AStmt) (g : LGraph) (hI : Inv ss g) {r w : String} (h : feeds ss r w) :
+    tn r ∈ g.nodes ∧ tn w ∈ g.nodes := by
+  obtain ⟨R, hm, hr⟩ := h
+  exact ⟨(hI.nodes _).mpr (Or.inl ⟨r, rfl, Or.inl ⟨R, some w, hm, hr⟩⟩),
+         (hI.nodes _).mpr (Or.inl ⟨w, rfl, Or.inr ⟨R, hm⟩⟩)⟩
+
+private theorem selfloop_tag (ss : List AStmt) (g : LGraph) (hI : Inv ss g) (t : String) :
+    tn t ∈ tagTables (tagSelfloops g) .selfloop ↔ self ss t := by
+  rw [mem_tagTables, tsl_tag, tsl_nodes]
+  simp only [and_true, tn_isDataset]
+  constructor
+  · rintro ⟨hn, h⟩
+    by_cases hc : tn t ∈ g.nodes ∧ (tn t, tn t) ∈ g.edges
+    · rcases (hI.edges _).mp hc.2 with ⟨r, w, he, hf⟩ | ⟨r, he, _⟩
+      · simp only [Prod.mk.injEq] at he
+        have h1 := tn_inj he.1; have h2 := tn_inj he.2; subst h1; subst h2; exact hf
+      · simp at he
+    · rw [if_neg hc, hI.loop] at h; simp at h
+  · intro hs
+    have hn := (feeds_node ss g hI hs).1
+    have he : (tn t, tn t) ∈ g.edges := (hI.edges _).mpr (Or.inl ⟨t, t, rfl, hs⟩)
+    exact ⟨hn, by simp [hn, he]⟩
+
+private theorem src_tag (ss : List AStmt) (g : LGraph) (hI : Inv ss g) (t : String) :
+    tn t ∈ tagTables (tagSelfloops g) .sourceOnly ↔ srcOnly ss t := by
+  rw [mem_tagTables, tsl_tag, tsl_nodes]
+  simp only [and_true, tn_isDataset, reduceCtorEq, and_false, if_false, hI.src]
+  constructor
+  · rintro ⟨_, t', he, h⟩; have := tn_inj he; subst this; exact h
+  · intro h
+    obtain ⟨R, hm, ht⟩ := h
+    exact ⟨(hI.nodes _).mpr (Or.inl ⟨t, rfl, Or.inl ⟨R, none, hm, ht⟩⟩), t, rfl, R, hm, ht⟩
+
+private theorem tgt_tag (ss : List AStmt) (g : LGraph) (hI : Inv ss g) (t : String) :
+    tn t ∈ tagTables (tagSelfloops g) .targetOnly ↔ tgtOnly ss t := by
+  rw [mem_tagTables, tsl_tag, tsl_nodes]
+  simp only [and_true, tn_isDataset, reduceCtorEq, and_false, if_false, hI.tgt]
+  constructor
+  · rintro ⟨_, t', he, h⟩; have := tn_inj he; subst this; exact h
+  · intro h
+    exact ⟨(hI.nodes _).mpr (Or.inl ⟨t, rfl, Or.inr ⟨[], h⟩⟩), t, rfl, h⟩
+
+private theorem tg_node (ss : List AStmt) (g : LGraph) (hI : Inv ss g) (t : String) (h : ∃ x, feeds ss t x ∨ feeds ss x t) :
+    tn t ∈ (tableGraph (tagSelfloops g)).nodes := by
+  simp only [tableGraph, mem_nodes_subgraph, tsl_nodes, tn_isDataset, and_true]
+  obtain ⟨x, h | h⟩ := h
+  · exact (feeds_node ss g hI h).1
+  · exact (feeds_node ss g hI h).2
+
+/-- **source** = has outgoing but no incoming edges, or is read and written by one statement, or is read by a
+    statement that writes nothing. -/
+theorem source_iff (ss : List AStmt) (g : LGraph) (hI : Inv ss g) (t : String) :
+    tn t ∈ sourceTables (tagSelfloops g) ↔
+      ((∃ w, feeds ss t w) ∧ ¬∃ r, feeds ss r t) ∨ self ss t ∨ srcOnly ss t := by
+  simp only [sourceTables, mem_union, selfloop_tag ss g hI, src_tag ss g hI, List.mem_filter,
+    Bool.and_eq_true, beq_iff_eq, decide_eq_true_eq, or_assoc]
+  have hin := tg_inDeg_pos ss g hI t
+  have hout := tg_outDeg_pos ss g hI t
+  constructor
+  · rintro (⟨_, h0, h1⟩ | h | h)
+    · refine Or.inl ⟨hout.mp h1, fun h => ?_⟩
+      have := hin.mpr h; omega
+    · exact Or.inr (Or.inl h)
+    · exact Or.inr (Or.inr h)
+  · rintro (⟨h1, h0⟩ | h | h)
+    · refine Or.inl ⟨tg_node ss g hI t (by obtain ⟨w, hw⟩ := h1; exact ⟨w, Or.inl hw⟩), ?_, hout.mpr h1⟩
+      rcases Nat.eq_zero_or_pos ((tableGraph (tagSelfloops g)).inDeg (tn t)) with h | h
+      · exact h
+      · exact absurd (hin.mp h) h0
+    · exact Or.inr (Or.inl h)
+    · exact Or.inr (Or.inr h)
+
+/-- **target** = has incoming but no outgoing edges, or self‑loop, or written by a statement that reads nothing. -/
+theorem target_iff (ss : List AStmt) (g : LGraph) (hI : Inv ss g) (t : String) :
+    tn t ∈ targetTables (tagSelfloops g) ↔
+      ((∃ r, feeds ss r t) ∧ ¬∃ w, feeds ss t w) ∨ self ss t ∨ tgtOnly ss t := by
+  simp only [targetTables, mem_union, selfloop_tag ss g hI, tgt_tag ss g hI, List.mem_filter,
+    Bool.and_eq_true, beq_iff_eq, decide_eq_true_eq, or_assoc]
+  have hin := tg_inDeg_pos ss g hI t
+  have hout := tg_outDeg_pos ss g hI t
+  constructor
+  · rintro (⟨_, h0, h1⟩ | h | h)
+    · refine Or.inl ⟨hin.mp h1, fun h => ?_⟩
+      have := hout.mpr h; omega
+    · exact Or.inr (Or.inl h)
+    · exact Or.inr (Or.inr h)
+  · rintro (⟨h1, h0⟩ | h | h)
+    · refine Or.inl ⟨tg_node ss g hI t (by obtain ⟨r, hr⟩ := h1; exact ⟨r, Or.inr hr⟩), ?_, hin.mpr h1⟩
+      rcases Nat.eq_zero_or_pos ((tableGraph (tagSelfloops g)).outDeg (tn t)) with h | h
+      · exact h
+      · exact absurd (hout.mp h) h0
+    · exact Or.inr (Or.inl h)
+    · exact Or.inr (Or.inr h)
+
+/-- **intermediate** = has both incoming and outgoing edges and is not read and written by one statement. -/
+theorem intermediate_iff (ss : List AStmt) (g : LGraph) (hI : Inv ss g) (t : String) :
+    tn t ∈ intermediateTables (tagSelfloops g) ↔
+      (∃ r, feeds ss r t) ∧ (∃ w, feeds ss t w) ∧ ¬ self ss t := by
+  simp only [intermediateTables, List.mem_filter, Bool.and_eq_true, decide_eq_true_eq, Bool.not_eq_true',
+    List.contains_eq_mem, decide_eq_false_iff_not, selfloop_tag ss g hI]
+  have hin := tg_inDeg_pos ss g hI t
+  have hout := tg_outDeg_pos ss g hI t
+  constructor
+  · rintro ⟨⟨_, h1, h2⟩, h3⟩; exact ⟨hin.mp h1, hout.mp h2, h3⟩
+  · rintro ⟨h1, h2, h3⟩
+    exact ⟨⟨tg_node ss g hI t (by obtain ⟨r, hr⟩ := h1; exact ⟨r, Or.inr hr⟩), hin.mpr h1, hout.mpr h2⟩, h3⟩
+
+/-- every reported role member is one of the history's tables (nothing else is ever classified) -/
+theorem roles_are_tables (ss : List AStmt) (g : LGraph) (hI : Inv ss g) (n : Node)
+    (h : n ∈ sourceTables (tagSelfloops g) ∨ n ∈ targetTables (tagSelfloops g) ∨ n ∈ intermediateTables (tagSelfloops g)) :
+    ∃ t, n = tn t := by
+  have key : ∀ n, n ∈ g.nodes → n.isDataset = true → ∃ t, n = tn t := by
+    intro n hn hd
+    rcases (hI.nodes n).mp hn with ⟨t, rfl, _⟩ | ⟨t, rfl, _⟩
+    · exact ⟨t, rfl⟩
+    · simp [Node.isDataset] at hd
+  have htg : ∀ n, n ∈ (tableGraph (tagSelfloops g)).nodes → ∃ t, n = tn t := by
+    intro n hn
+    simp only [tableGraph, mem_nodes_subgraph, tsl_nodes] at hn
+    exact key n hn.1 hn.2
+  have htt : ∀ tg n, n ∈ tagTables (tagSelfloops g) tg → ∃ t, n = tn t := by
+    intro tg n hn
+    rw [mem_tagTables, tsl_nodes] at hn
+    exact key n hn.1 hn.2.2
+  rcases h with h | h | h
+  · simp only [sourceTables, mem_union, List.mem_filter] at h
+    rcases h with (⟨h, _⟩ | h) | h
+    · exact htg n h
+    · exact htt _ n h
+    · exact htt _ n h
+  · simp only [targetTables, mem_union, List.mem_filter] at h
+    rcases h with (⟨h, _⟩ | h) | h
+    · exact htg n h
+    · exact htt _ n h
+    · exact htt _ n h
+  · simp only [intermediateTables, List.mem_filter] at h
+    exact htg n h.1.1
+
+/-- a table that one statement both reads and writes counts as source and target, not intermediate -/
+theorem selfloop_source_and_target_not_intermediate (ss : List AStmt) (g : LGraph) (hI : Inv ss g) (t : String)
+    (h : self ss t) :
+    tn t ∈ sourceTables (tagSelfloops g) ∧ tn t ∈ targetTables (tagSelfloops g) ∧
+    tn t ∉ intermediateTables (tagSelfloops g) := by
+  refine ⟨(source_iff ss g hI t).mpr (Or.inr (Or.inl h)), (target_iff ss g hI t).mpr (Or.inr (Or.inl h)), ?_⟩
+  intro hi
+  exact ((intermediate_iff ss g hI t).mp hi).2.2 h
+
+/-! ### order and repetition do not matter -/
+
+private theorem feeds_congr {ss ss' : List AStmt} (h : ∀ s, s ∈ ss ↔ s ∈ ss') (r w : String) :
+    feeds ss r w ↔ feeds ss' r w := by
+  simp only [feeds, h]
+
+private theorem srcOnly_congr {ss ss' : List AStmt} (h : ∀ s, s ∈ ss ↔ s ∈ ss') (t : String) :
+    srcOnly ss t ↔ srcOnly ss' t := by
+  simp only [srcOnly, h]
+
+private theorem tgtOnly_congr {ss ss' : List AStmt} (h : ∀ s, s ∈ ss ↔ s ∈ ss') (t : String) :
+    tgtOnly ss t ↔ tgtOnly ss' t := by
+  simp only [tgtOnly, h]
+
+/-- **Without DROP/RENAME the result does not depend on statement order or on repeating statements**: two
+    histories with the same *set* of statements have the same table edges and the same three role sets. -/
+theorem order_and_repetition_irrelevant (ss ss' : List AStmt) (hrw : RWOnly ss)
+    (hset : ∀ s, s ∈ ss ↔ s ∈ ss') :
+    ∃ g g', AStmt.build ss = .ok g ∧ AStmt.build ss' = .ok g' ∧
+      (∀ e, e ∈ (tableGraph g).edges ↔ e ∈ (tableGraph g').edges) ∧
+      (∀ n, n ∈ sourceTables g ↔ n ∈ sourceTables g') ∧
+      (∀ n, n ∈ targetTables g ↔ n ∈ targetTables g') ∧
+      (∀ n, n ∈ intermediateTables g ↔ n ∈ intermediateTables g') := by
+  have hrw' : RWOnly ss' := fun s hs => hrw s ((hset s).mpr hs)
+  obtain ⟨g, hI, hb⟩ := build_rw ss hrw
+  obtain ⟨g', hI', hb'⟩ := build_rw ss' hrw'
+  refine ⟨_, _, hb, hb', ?_, ?_, ?_, ?_⟩
+  · intro e
+    rw [table_edges ss g hI, table_edges ss' g' hI']
+    simp only [feeds_congr hset]
+  · intro n
+    constructor
+    · intro h
+      obtain ⟨t, rfl⟩ := roles_are_tables ss g hI n (Or.inl h)
+      rw [source_iff ss g hI] at h
+      rw [source_iff ss' g' hI']
+      simpa only [self, feeds_congr hset, srcOnly_congr hset] using h
+    · intro h
+      obtain ⟨t, rfl⟩ := roles_are_tables ss' g' hI' n (Or.inl h)
+      rw [source_iff ss' g' hI'] at h
+      rw [source_iff ss g hI]
+      simpa only [self, feeds_congr hset, srcOnly_congr hset] using h
+  · intro n
+    constructor
+    · intro h
+      obtain ⟨t, rfl⟩ := roles_are_tables ss g hI n (Or.inr (Or.inl h))
+      rw [target_iff ss g hI] at h
+      rw [target_iff ss' g' hI']
+      simpa only [self, feeds_congr hset, tgtOnly_congr hset] using h
+    · intro h
+      obtain ⟨t, rfl⟩ := roles_are_tables ss' g' hI' n (Or.inr (Or.inl h))
+      rw [target_iff ss' g' hI'] at h
+      rw [target_iff ss g hI]
+      simpa only [self, feeds_congr hset, tgtOnly_congr hset] using h
+  · intro n
+    constructor
+    · intro h
+      obtain ⟨t, rfl⟩ := roles_are_tables ss g hI n (Or.inr (Or.inr h))
+      rw [intermediate_iff ss g hI] at h
+      rw [intermediate_iff ss' g' hI']
+      simpa only [self, feeds_congr hset] using h
+    · intro h
+      obtain ⟨t, rfl⟩ := roles_are_tables ss' g' hI' n (Or.inr (Or.inr h))
+      rw [intermediate_iff ss' g' hI'] at h
+      rw [intermediate_iff ss g hI]
+      simpa only [self, feeds_congr hset] using h
+
+end SqlLineage.Props.C03
+
+namespace SqlLineage.Props.C03
+open SqlLineage Graph Assemble AStmt
+
+/-! ### statements directly about `AStmt.build` (final form of the characterisation) -/
+
+theorem build_total (ss : List AStmt) (hrw : RWOnly ss) : ∃ G, AStmt.build ss = .ok G := by
+  obtain ⟨g, _, hb⟩ := build_rw ss hrw; exact ⟨_, hb⟩
+
+/-- the table graph has an edge `r → w` exactly when some statement reads `r` and writes `w` -/
+theorem edge_iff (ss : List AStmt) (hrw : RWOnly ss) (G : LGraph) (hb : AStmt.build ss = .ok G) (r w : String) :
+    (tn r, tn w) ∈ (tableGraph G).edges ↔ feeds ss r w := by
+  obtain ⟨g, hI, hb'⟩ := build_rw ss hrw
+  rw [hb] at hb'; cases hb'
+  rw [table_edges ss g hI]
+  constructor
+  · rintro ⟨r', w', he, hf⟩
+    simp only [Prod.mk.injEq] at he
+    have h1 := tn_inj he.1; have h2 := tn_inj he.2; subst h1; subst h2; exact hf
+  · intro hf; exact ⟨r, w, rfl, hf⟩
+
+theorem roles_iff (ss : List AStmt) (hrw : RWOnly ss) (G : LGraph) (hb : AStmt.build ss = .ok G) (t : String) :
+    (tn t ∈ sourceTables G ↔ ((∃ w, feeds ss t w) ∧ ¬∃ r, feeds ss r t) ∨ self ss t ∨ srcOnly ss t) ∧
+    (tn t ∈ targetTables G ↔ ((∃ r, feeds ss r t) ∧ ¬∃ w, feeds ss t w) ∨ self ss t ∨ tgtOnly ss t) ∧
+    (tn t ∈ intermediateTables G ↔ (∃ r, feeds ss r t) ∧ (∃ w, feeds ss t w) ∧ ¬ self ss t) := by
+  obtain ⟨g, hI, hb'⟩ := build_rw ss hrw
+  rw [hb] at hb'; cases hb'
+  exact ⟨source_iff ss g hI t, target_iff ss g hI t, intermediate_iff ss g hI t⟩
+
+/-! ### DROP -/
+
+private theorem drop_holder (t : String) :
+    (holderOf (.drop t)).nodes = [tn t] ∧ (holderOf (.drop t)).edges = [] ∧
+    stmtDrop (holderOf (.drop t)) = [tn t] := by
+  refine ⟨?_, ?_, ?_⟩ <;>
+    simp [holderOf, Holder.addDrop, setTag, addNode, hasNode, Graph.empty, stmtDrop, tagged, tag, tn]
+
+theorem foldStep_drop (ord : List (Node × Node) → List (Node × Node)) (g : LGraph) (t : String) :
+    foldStep ord g (holderOf (.drop t)) =
+      .ok (if (g.compose (holderOf (.drop t))).degree (tn t) = 0
+           then (g.compose (holderOf (.drop t))).removeNode (tn t) else g.compose (holderOf (.drop t))) := by
+  have hn : tn t ∈ (g.compose (holderOf (.drop t))).nodes :=
+    (mem_nodes_compose _ _ _).mpr (Or.inr (by rw [(drop_holder t).1]; simp))
+  have hc : (g.compose (holderOf (.drop t))).nodes.contains (tn t) = true := by simpa using hn
+  simp only [foldStep, (drop_holder t).2.2, List.isEmpty_cons, Bool.not_false, if_true, dropStep, List.foldl_cons,
+    List.foldl_nil, hasNode, hc, Bool.true_and, beq_iff_eq]
+
+private theorem compose_drop_edges (g : LGraph) (t : String) :
+    (g.compose (holderOf (.drop t))).edges = g.edges := by
+  simp [compose, (drop_holder t).2.1]
+
+/-- a DROP statement never fails, never changes an edge, and never touches another node -/
+theorem drop_frame (ord : List (Node × Node) → List (Node × Node)) (g : LGraph) (t : String) :
+    ∃ g', foldStep ord g (holderOf (.drop t)) = .ok g' ∧
+      (∀ e, e ∈ g'.edges ↔ e ∈ g.edges) ∧
+      (∀ n, n ≠ tn t → (n ∈ g'.nodes ↔ n ∈ g.nodes)) ∧
+      (∀ n tg, n ≠ tn t → g'.tag n tg = g.tag n tg) := by
+  refine ⟨_, foldStep_drop ord g t, ?_, ?_, ?_⟩
+  · intro e
+    split
+    · rename_i hd
+      rw [mem_edges_removeNode, compose_drop_edges]
+      have := (degree_eq_zero_iff _ _).mp hd e
+      rw [compose_drop_edges] at this
+      constructor
+      · exact fun h => h.1
+      · exact fun h => ⟨h, this h⟩
+    · rw [compose_drop_edges]
+  · intro n hn
+    have hc : n ∈ (g.compose (holderOf (.drop t))).nodes ↔ n ∈ g.nodes := by
+      rw [mem_nodes_compose, (drop_holder t).1]; simp [hn]
+    split
+    · rw [mem_nodes_removeNode, hc]; simp [hn]
+    · exact hc
+  · intro n tg hn
+    have hc : (g.compose (holderOf (.drop t))).tag n tg = g.tag n tg := by
+      rw [tag_compose, tag_of_not_mem (holderOf (.drop t)) n tg (by rw [(drop_holder t).1]; simp [hn])]
+    split
+    · rw [tag_removeNode_ne _ _ _ _ hn, hc]
+    · exact hc
+
+/-- DROP removes the table **only if** nothing was ever read from it or wired to it (its degree — alias edges of
+    reads, lineage edges, column edges — is zero), and in that case it does remove it -/
+theorem drop_removes_iff_isolated (ord : List (Node × Node) → List (Node × Node)) (g g' : LGraph) (t : String)
+    (h : foldStep ord g (holderOf (.drop t)) = .ok g') :
+    tn t ∉ g'.nodes ↔ g.degree (tn t) = 0 := by
+  rw [foldStep_drop] at h
+  have hdeg : (g.compose (holderOf (.drop t))).degree (tn t) = g.degree (tn t) := by
+    simp [degree, inDeg, outDeg, inEdges, outEdges, compose_drop_edges]
+  have hn : tn t ∈ (g.compose (holderOf (.drop t))).nodes :=
+    (mem_nodes_compose _ _ _).mpr (Or.inr (by rw [(drop_holder t).1]; simp))
+  rw [hdeg] at h
+  by_cases hd : g.degree (tn t) = 0
+  · rw [if_pos hd] at h; cases h
+    simp [mem_nodes_removeNode, hd]
+  · rw [if_neg hd] at h; cases h
+    simp [hn, hd]
+
+/-! ### RENAME (one pair) -/
+
+private theorem rename_holder (x y : String) :
+    (tn x, tn y) ∈ (holderOf (.rename [(x, y)])).edges ∧ tn x ∈ (holderOf (.rename [(x, y)])).nodes ∧
+    stmtDrop (holderOf (.rename [(x, y)])) = [] ∧
+    stmtRename (holderOf (.rename [(x, y)])) = [(tn x, tn y)] := by
+  have he : (holderOf (.rename [(x, y)])).edges = [(tn x, tn y)] := by
+    simp [holderOf, Holder.addRename, addEdge, addNode, hasNode, hasEdge, Graph.empty, tn]
+    split <;> simp
+  have hty : (holderOf (.rename [(x, y)])).ety (tn x) (tn y) = some .rename := by
+    simp only [holderOf, List.foldl_cons, List.foldl_nil, Holder.addRename, ety_addEdge, tn]; simp
+  have hn : ∀ n, n ∈ (holderOf (.rename [(x, y)])).nodes ↔ n = tn x ∨ n = tn y := by
+    intro n
+    simp only [holderOf, List.foldl_cons, List.foldl_nil, Holder.addRename, mem_nodes_addEdge, tn]; simp
+  have htag : ∀ n tg, (holderOf (.rename [(x, y)])).tag n tg = none := by
+    intro n tg
+    simp only [holderOf, List.foldl_cons, List.foldl_nil, Holder.addRename, tag_addEdge, tag_empty]
+  refine ⟨by rw [he]; simp, (hn _).mpr (Or.inl rfl), ?_, ?_⟩
+  · simp only [stmtDrop, tagged, List.filter_eq_nil_iff]
+    intro n _; simp [htag]
+  · have ho : (holderOf (.rename [(x, y)])).edgesOrdered = [(tn x, tn y)] := by
+      by_cases hxy : x = y
+      · subst hxy
+        simp [edgesOrdered, outEdges, holderOf, Holder.addRename, addEdge, addNode, hasNode, hasEdge, Graph.empty, tn]
+      · have : tn x ≠ tn y := fun h => hxy (tn_inj h)
+        have : tbl x ≠ tbl y := fun h => hxy (by simpa [tbl] using h)
+        simp [edgesOrdered, outEdges, holderOf, Holder.addRename, addEdge, addNode, hasNode, hasEdge, Graph.empty, tn, this,
+          Ne.symm this]
+    simp [stmtRename, ho, hty]
+
+/-- `RENAME x TO y` (one pair) never raises: the self‑loop the relabelling creates out of the RENAME edge is there -/
+theorem rename_single_pair_total (g : LGraph) (x y : String) :
+    ∃ g', foldStep id g (holderOf (.rename [(x, y)])) = .ok g' := by
+  obtain ⟨he, hn, hd, hr⟩ := rename_holder x y
+  have hmem : (tn x, tn y) ∈ (g.compose (holderOf (.rename [(x, y)]))).edgesOrdered :=
+    (mem_edgesOrdered_iff _ _).mpr ⟨(mem_edges_compose _ _ _).mpr (Or.inr he), (mem_nodes_compose _ _ _).mpr (Or.inr hn)⟩
+  have hloop : (tn y, tn y) ∈ ((g.compose (holderOf (.rename [(x, y)]))).relabel (tn x) (tn y)).edges := by
+    rw [mem_edges_relabel]
+    refine ⟨tn x, tn y, hmem, ?_⟩
+    simp only [rmap, if_true, Prod.mk.injEq, true_and]
+    split <;> rfl
+  have hs := (removeEdge_isSome _ (tn y) (tn y)).mpr hloop
+  simp only [foldStep, hd, hr, List.isEmpty_nil, Bool.not_true, List.isEmpty_cons, Bool.not_false, if_true, id,
+    renameStep, renameOne, Bool.false_eq_true, if_false]
+  cases hre : (((g.compose (holderOf (.rename [(x, y)]))).relabel (tn x) (tn y)).removeEdge? (tn y) (tn y)) with
+  | none => rw [hre] at hs; simp at hs
+  | some g2 => exact ⟨_, rfl⟩
+
+/-- `RENAME x TO y` removes `x` -/
+theorem rename_removes_old (g g' : LGraph) (x y : String) (hxy : x ≠ y)
+    (h : foldStep id g (holderOf (.rename [(x, y)])) = .ok g') : tn x ∉ g'.nodes := by
+  obtain ⟨_, _, hd, hr⟩ := rename_holder x y
+  have hne : tn x ≠ tn y := fun h => hxy (tn_inj h)
+  simp only [foldStep, hd, hr, List.isEmpty_nil, Bool.not_true, List.isEmpty_cons, Bool.not_false, if_true, id,
+    renameStep, renameOne, Bool.false_eq_true, if_false] at h
+  cases hre : (((g.compose (holderOf (.rename [(x, y)]))).relabel (tn x) (tn y)).removeEdge? (tn y) (tn y)) with
+  | none => rw [hre] at h; simp at h
+  | some g2 =>
+    rw [hre] at h
+    simp only [Except.ok.injEq] at h
+    have h2 : tn x ∉ g2.nodes := by
+      rw [mem_nodes_removeEdge _ _ _ _ hre]
+      exact old_not_mem_relabel _ _ _ _ hne
+    subst h
+    split
+    · rw [mem_nodes_removeNode]; exact fun hh => h2 hh.1
+    · exact h2
+
+/-- the RENAME hypothesis of the property is not idle: relabelling lets the freshly composed, attribute‑less node `y`
+    overwrite `x`'s attribute dict, so a table that was only ever *read* (SOURCE_ONLY tag) loses its role when
+    renamed — `select * from x; alter table x rename to y` reports nothing. -/
+theorem rename_loses_tags_witness :
+    (match AStmt.build [.rw ["x"] none] with | .ok g => (sourceTables g).map (fun n => decide (n = tn "x")) | _ => []) = [true] ∧
+    (match AStmt.build [.rw ["x"] none, .rename [("x", "y")]] with
+      | .ok g => (sourceTables g ++ targetTables g ++ intermediateTables g).length | _ => 99) = 0 := by
+  decide
+
+/-- D10 witness: with two pairs the outcome depends on the order in which the pair *set* is iterated — one order
+    raises `NetworkXError` (internal), the other returns normally. -/
+theorem dev_D10 :
+    let hs := [holderOf (.rename [("b", "a"), ("c", "b")])]
+    (match Assemble.buildWith id Prov.none hs with | .error (.internal _) => true | _ => false) = true ∧
+    (match Assemble.buildWith List.reverse Prov.none hs with | .ok _ => true | _ => false) = true := by
+  decide
+
+/-! ### non‑vacuity -/
+
+example : RWOnly [.rw ["a", "b"] (some "c"), .rw ["c"] (some "d"), .rw ["d"] (some "d"), .rw ["x"] none] := by
+  intro s hs; simp at hs; rcases hs with rfl | rfl | rfl | rfl <;> exact ⟨_, _, rfl⟩
+
+example : (match AStmt.build [.rw ["a", "b"] (some "c"), .rw ["c"] (some "d"), .rw ["d"] (some "d"), .rw ["x"] none] with
+    | .ok g => ((sourceTables g).length, (targetTables g).length, (intermediateTables g).length)
+    | _ => (0, 0, 0)) = (4, 1, 1) := by decide
+
 end SqlLineage.Props.C03
